@@ -57,7 +57,7 @@ def make_tables(rng, numeric=False, plain=False):
         nrows = rng.choice([0, 1, 2, 3, 7, 20, 50])
         classes = {'string': ['plain', 'empty', 'unicode', 'numeric_looking', 'prefix_chain', 'none_like',
                               'quote', 'delim'],
-                   'integer': ['small', 'negative'], 'number': ['decimal', 'exp']}
+                   'integer': ['small', 'negative'], 'number': ['decimal', 'exp', 'same_value_other_scale']}
         tables[rn] = gen.table(rng, [(n, 'integer' if t == 'duration' else t) for n, t in fields], nrows,
                                classes=classes, null_p=0.2)
         if numeric and typ == 'duration':
@@ -212,6 +212,14 @@ def run_case(case):
             if s['operation'] == 'constant':
                 s.pop('source', None)
             specs.append(s)
+        if boot.rng(case['seed'], 'C15', 'chain', case['idx']).random() < 0.4:
+            # a later specification that uses an earlier one's target as a source - also a callable's: the
+            # specifications apply in the given order
+            j0 = rng.randrange(len(specs))
+            first_kind = 'callable' if callable(specs[j0]['operation']) else specs[j0]['operation']
+            tname = specs[j0]['target'] if isinstance(specs[j0]['target'], str) else specs[j0]['target']['name']
+            specs.append({'target': 'TJ', 'operation': 'join', 'source': [tname, names[0]], 'with': '/'})
+            covc['chained_on/' + first_kind] = covc.get('chained_on/' + first_kind, 0) + 1
         real_specs = []
         for s in specs:
             rs = {k: copy.deepcopy(v) if not callable(v) else v for k, v in s.items() if k != 'with'}
@@ -268,11 +276,10 @@ def run_case(case):
             r = dict(r)
             for s in desc_cfg['specs']:
                 n = s['name']
-                if typs[n] != 'string' and isinstance(r.get(n), str):
-                    try:
-                        r[n] = int(r[n]) if typs[n] == 'integer' else D(r[n])
-                    except Exception:
-                        pass
+                if typs[n] != 'string' and r.get(n) is not None:
+                    # whether the cell is left as the value or as its text: the TEXT is what is compared ('2.50' is not
+                    # '2.5': the replacement works on the text of the cell at hand)
+                    r[n] = str(r[n])
             out.append(r)
         return out
 
